@@ -7,6 +7,7 @@
 (*  Api{op,ph,rc,st}  DevOpen/DevClose{kind,s,hd}  CamStart/CamStop/CamTrig/ *)
 (*  CamFrame{hd}  StorStart/StorStop/StorAppend/StorFail{hd}                  *)
 (*  ThreadStart/ThreadExit{name}  Hang  End                                 *)
+(*  Api configure call {req}  Query{s,rcs,rcc,st,rb}  (read-back, an extension) *)
 (***************************************************************************)
 EXTENDS Naturals, Integers, Sequences, FiniteSets, TLC, Json, IOUtils
 Tr == ndJsonDeserialize(IOEnv.TRACE)
@@ -20,7 +21,11 @@ DInit == [ open    |-> {},        \* handles open
            running |-> {},        \* handles started and not yet stopped
            alive   |-> {},        \* worker threads created and not yet exited
            shut    |-> FALSE,     \* shutdown has returned
-           active  |-> FALSE ]    \* a start call has been made and no stop/abort has returned since
+           active  |-> FALSE,     \* a start call has been made and no stop/abort has returned since
+           req     |-> <<>>,      \* what the configure call in progress asked for (per stream: on, cam, sto, mfc, avg)
+           conf    |-> <<>>,      \* what the last configure asked for if it succeeded, <<>> otherwise
+           clean   |-> FALSE ]    \* no device has refused or failed anything since that configure call began
+                                  \* (acquire_configure reports Ok even when a stream could not be configured)
 Init == l = 1 /\ d = DInit /\ bad = <<>> /\ nbad = 0 /\ done = FALSE
 Ev == Tr[l]
 If(x, name) == IF x THEN <<name>> ELSE <<>>
@@ -35,6 +40,15 @@ NoFlag == bad' = bad /\ nbad' = nbad
 H(e) == IF e.hd \in 1..MaxH THEN e.hd ELSE 0
 Use(e) == If(H(e) \in d.closed, "UseAfterClose") \o If(H(e) \notin d.open \cup d.closed, "UseOfUnknownHandle") \o If(d.shut, "UseAfterShutdown")
 
+\* acquire_get_configuration: device choice, frame limit and averaging window of every configured stream are those of the
+\* last configure that succeeded; acquire_get_shape answers for a configured stream whenever the runtime is configured.
+Readback(e) ==
+  IF d.conf = <<>> \/ d.shut \/ ~d.clean THEN <<>>
+  ELSE If(e.rcc = 0 /\ \E i \in 1..Len(d.conf) : i <= Len(e.rb) /\ d.conf[i].on = 1
+                        /\ (e.rb[i].cam # d.conf[i].cam \/ e.rb[i].sto # d.conf[i].sto
+                            \/ e.rb[i].mfc # d.conf[i].mfc \/ e.rb[i].avg # d.conf[i].avg), "ReadbackDisagrees")
+       \o If(e.st \in {ARMED, RUNNING} /\ e.s + 1 \in 1..Len(d.conf) /\ d.conf[e.s + 1].on = 1 /\ e.rcs # 0, "ShapeQueryRefused")
+
 Next1 ==
   /\ l <= Len(Tr) /\ ~done /\ l' = l + 1 /\ done' = FALSE
   /\ LET e == Ev  k == e.e IN
@@ -45,13 +59,17 @@ Next1 ==
                             /\ d' = [d EXCEPT !.open = d.open \ {H(e)}, !.closed = d.closed \cup {H(e)}, !.running = d.running \ {H(e)}]
        [] k \in {"CamStart", "StorStart"} -> Flag(Use(e) \o If(H(e) \in d.running, "StartWhileRunning")) /\ d' = [d EXCEPT !.running = d.running \cup {H(e)}]
        [] k \in {"CamStop", "StorStop"} -> Flag(Use(e) \o If(H(e) \notin d.running, "StopWithoutStart")) /\ d' = [d EXCEPT !.running = d.running \ {H(e)}]
-       [] k = "StorFail" -> Flag(Use(e)) /\ d' = [d EXCEPT !.running = d.running \ {H(e)}]   \* the device left the running state by itself
+       [] k = "StorFail" -> Flag(Use(e)) /\ d' = [d EXCEPT !.running = d.running \ {H(e)}, !.clean = FALSE]   \* the device left the running state by itself
        [] k = "StorAppend" -> Flag(Use(e) \o If(H(e) \notin d.running, "AppendOutsideStartStop")) /\ d' = d
        [] k = "CamFrame" -> Flag(Use(e) \o If(H(e) \notin d.running, "FrameOutsideStartStop")) /\ d' = d
        [] k \in {"CamTrig", "DevUse"} -> Flag(Use(e)) /\ d' = d     \* (DevUse: set / get / get_meta / get_shape / reserve)
        [] k = "ThreadStart" -> d' = [d EXCEPT !.alive = d.alive \cup {e.name}] /\ NoFlag
        [] k = "ThreadExit" -> d' = [d EXCEPT !.alive = d.alive \ {e.name}] /\ NoFlag
-       [] k = "Api" /\ e.ph = "call" -> d' = (IF e.op = "start" THEN [d EXCEPT !.active = TRUE] ELSE d) /\ NoFlag
+       [] k = "Api" /\ e.ph = "call" -> d' = (IF e.op = "start" THEN [d EXCEPT !.active = TRUE]
+                                               ELSE IF e.op = "configure" /\ "req" \in DOMAIN e THEN [d EXCEPT !.req = e.req, !.clean = TRUE]
+                                               ELSE d) /\ NoFlag
+       \* ---- beyond the listed properties: the read-only API reads back what the last successful configure stored ----
+       [] k = "Query" -> Flag(Readback(e)) /\ d' = d
        [] k = "Api" /\ e.ph = "ret" ->
             (CASE e.op \in {"stop", "abort"} ->
                     /\ Flag(If(d.alive # {}, "WorkersAliveAfterStop") \o If(d.running # {}, "DeviceRunningAfterStop")
@@ -61,11 +79,13 @@ Next1 ==
                     /\ Flag(If(d.open # {}, "DeviceNotClosedByShutdown") \o If(d.alive # {}, "WorkersAliveAfterShutdown"))
                     /\ d' = [d EXCEPT !.shut = TRUE, !.active = FALSE]
                [] e.op = "state" -> Flag(If(e.st = RUNNING /\ d.alive = {}, "RunningWithoutWorkers")) /\ d' = d
-               [] e.op = "start" -> d' = (IF e.rc # 0 THEN [d EXCEPT !.active = FALSE] ELSE d) /\ NoFlag
+               [] e.op = "start" -> d' = (IF e.rc # 0 THEN [d EXCEPT !.active = FALSE, !.clean = FALSE] ELSE d) /\ NoFlag
+               [] e.op = "configure" -> d' = [d EXCEPT !.conf = IF e.rc = 0 THEN d.req ELSE <<>>] /\ NoFlag
                [] OTHER -> d' = d /\ NoFlag)
        [] k = "Hang" -> Flag(<<"Hang">>) /\ d' = d
        [] k = "Crash" -> Flag(<<"Crash">>) /\ d' = d
-       [] k \in {"End", "Sched", "CamNoData", "CamFail", "CamSetFail", "AvgSet", "MonMap", "MonUnmap", "Api2", "DevOpenFail"} -> d' = d /\ NoFlag
+       [] k \in {"CamFail", "CamSetFail", "DevOpenFail"} -> d' = [d EXCEPT !.clean = FALSE] /\ NoFlag
+       [] k \in {"End", "Sched", "CamNoData", "AvgSet", "MonMap", "MonUnmap", "Api2"} -> d' = d /\ NoFlag
        [] OTHER -> Flag(<<"UnknownEvent">>) /\ d' = d
 Finish == /\ l = Len(Tr) + 1 /\ ~done /\ done' = TRUE
           /\ PrintT(<<"VERDICT", ToJson([consumed |-> l - 1, nbad |-> nbad, bad |-> bad])>>)
